@@ -75,7 +75,11 @@ func header(scs []Scenario, tr *Trace) []string {
 	for _, f := range universe {
 		names[f] = B([]byte(f))
 	}
-	tr.Emit(M{"ev": "def_names", "names": names})
+	nb := 0
+	for i := range scs {
+		nb += len(scs[i].Batches)
+	}
+	tr.Emit(M{"ev": "def_names", "names": names, "nbatch": nb})
 	nf := normFunc(kind, universe)
 	table := M{}
 	for _, f := range universe {
